@@ -4,7 +4,7 @@ import vf
 POOL = ["01", "0102", "aa", "ff00", "-"]
 
 
-def gen_graph(rng, big=False, tail_shards=False):
+def gen_graph(rng, big=False, tail_shards=False, force_portal=False):
     k = rng.randint(3, 9) if not big else 330
     items = ["I1.1"]
     nodes = {1: [1]}
@@ -28,8 +28,9 @@ def gen_graph(rng, big=False, tail_shards=False):
     for n in nodes[1]:
         if rng.random() < 0.4:
             items.append(f"A1.{n}.{rng.choice(POOL[:4])}")
-    if not big and rng.random() < 0.35:
+    if not big and (force_portal or rng.random() < 0.35):
         pn = rng.choice(nodes[1][1:]) if len(nodes[1]) > 1 else 1
+        nodes["portal_owner"] = pn
         items.append(f"P2.1.1.{pn}")
         nodes[2] = [1]
         edges[2] = []
@@ -107,7 +108,9 @@ def gen_enq(rng, nodes, nrules=4, big=False, safe=False):
 
 
 def gen_case(rng, big=False, perms=4, local=0.5, extra="", safe=False, tail_shards=False, divergent=False):
-    g, nodes, edges = gen_graph(rng, big, tail_shards=tail_shards)
+    descent = "descent=1" in extra
+    g, nodes, edges = gen_graph(rng, big, tail_shards=tail_shards, force_portal=descent)
+    powner = nodes.pop("portal_owner", None)
     r = gen_programs(rng, nodes, edges, big=big, local=local, safe=safe)
     if divergent:
         # one rule emits two DIFFERENT ops under one sort key (clear-then-set): the merge must reject the tick whatever the
@@ -121,6 +124,18 @@ def gen_case(rng, big=False, perms=4, local=0.5, extra="", safe=False, tail_shar
                 seen.add(i); out.append(x)
         r = ";".join(out)
     enq = gen_enq(rng, nodes, big=big, safe=safe)
+    if descent and powner is not None:
+        # cross-instance conflicts: with the descent chain passed to apply_in_warp every candidate matched in instance 2
+        # reads the portal slot (alpha attachment of the owner node in instance 1); a parent candidate that writes the
+        # owner's attachment conflicts with it, and whichever sorts later must name the other as its blocker
+        rules = r.split(";")
+        wi = rng.randrange(len(rules))
+        rules[wi] = rules[wi].split(":")[0] + ":" + rng.choice(["sa.s.aa", "ca.s", "sa.s.-"])
+        r = ";".join(rules)
+        widx = int(rules[wi].split(":")[0])
+        extra_reqs = [(widx, 1, powner)] + [(rng.randrange(4), 2, rng.choice(nodes[2])) for _ in range(rng.randint(1, 3))]
+        for q in extra_reqs:
+            enq.insert(rng.randint(0, len(enq)), q)
     e = ";".join(f"{a}.{b}.{c}" for a, b, c in enq) or "-"
     return f"g={g} r={r} enq={e} perms={perms} seed={rng.getrandbits(30)}" + ((" " + extra) if extra else "")
 
@@ -169,7 +184,13 @@ def table_term(rows):
         w = r["warp"]
         nr, nw, er, ew, ar, aw = r["sets"]
         def ks(cls, l):
-            return "[" + ";".join(f"({w},{kid(cls, k)})" for k in l) + "]"
+            # `W<warp>~<key>` = a resource of another instance (descent-chain read); plain keys live in the row's instance.
+            # key ids are per (class, instance, key) so that equal local ids of different instances stay distinct
+            out = []
+            for k in l:
+                kw, kk = (int(k[1:].split("~")[0]), k.split("~", 1)[1]) if k.startswith("W") and "~" in k else (w, k)
+                out.append(f"({kw},{kid((cls, kw), kk)})")
+            return "[" + ";".join(out) + "]"
         fp = ("{| n_read := %s; n_write := %s; e_read := %s; e_write := %s; a_read := %s; a_write := %s; b_in := []; b_out := []; "
               "factor_mask := 18446744073709551615 |}" % (ks("n", nr), ks("n", nw), ks("e", er), ks("e", ew), ks("a", ar), ks("a", aw)))
         ops = "[" + ";".join("{| op_key := %d; op_content := %d; op_new := None; op_target := Some %d |}" % o for o in r["ops"]) + "]"
